@@ -12,9 +12,7 @@ _NAME = re.compile(r"\bg\d+\b")
 def coq_eval_cases(prop, tag, imports, case_type, check_fn, terms, defs_by_name, shard=500, timeout=600):
     d = os.path.join(C.WORK, prop)
     os.makedirs(d, exist_ok=True)
-    for f in os.listdir(d):
-        if f.startswith(tag + "_"):
-            os.remove(os.path.join(d, f))
+    tag = "%s_p%d" % (tag, os.getpid())   # two concurrent runs of one property must not overwrite each other's shards
     paths = []
     for si in range(0, len(terms), shard):
         chunk = terms[si:si + shard]
